@@ -361,7 +361,9 @@ class Drive(object):
 
 
 def lln(rows):
-    return T.lst([T.lst([T.N(v) for v in row]) for row in rows])
+    # the model's observations are naturals; a negative value read back from the implementation (e.g. a
+    # negative remaining size) is rendered as 10**12 + |v| so that it shows up as a disagreement
+    return T.lst([T.lst([T.N(v if v >= 0 else 10 ** 12 - v) for v in row]) for row in rows])
 
 
 def model_term(m, guess, events, obs, clear=True):
